@@ -596,52 +596,89 @@ def sbool(name):
 # --------------------------------------------------------------------------
 # integers: concretisation by solver enumeration
 # --------------------------------------------------------------------------
-def int_constraints(c, terms):
-    """Integrality side conditions for the integral symbols occurring in terms."""
+def intify(formulas, ints):
+    """Substitute every integral (Real-sorted) symbol by ToReal of a genuine Int constant.
+    (Adding `v == ToReal(i)` equations instead makes z3's LIRA core diverge.)"""
+    subs = [(v, z3.ToReal(z3.Int(str(v) + '_int'))) for v in ints]
+    if not subs:
+        return list(formulas)
+    return [z3.substitute(f, *subs) for f in formulas]
+
+
+def int_windows(lin, ints, W=8):
+    """Implied bounds |a - b| <= W between integral symbols, derived from the *real
+    relaxation* of the linear constraints (so they are consequences, not assumptions).
+    z3's integer branch-and-bound diverges on translation-invariant problems with unbounded
+    integers; with the (redundant) windows it terminates at once."""
     out = []
-    seen = set()
-    def walk(t):
-        if t.get_id() in seen:
-            return
-        seen.add(t.get_id())
-        if t.get_id() in c.ints:
-            out.append(t == z3.ToReal(z3.Int(str(t) + '_int')))
-        for ch in t.children():
-            walk(ch)
-    for t in terms:
-        walk(t)
+    rest = list(ints)
+    while rest:
+        base = rest.pop(0)
+        free = []
+        for v in rest:
+            if _quick(lin + [z3.Or(v - base > W, v - base < -W)], 2000) == 'unsat':
+                out.append(z3.And(v - base <= W, v - base >= -W))
+            else:
+                free.append(v)
+        rest = free
     return out
 
 
+def _quick(formulas, timeout_ms=5000):
+    sv = z3.Solver()
+    sv.set('timeout', timeout_ms)
+    sv.add(*formulas)
+    return str(sv.check())
+
+
 def concretize(s, cap=64):
-    """All-SAT enumeration of the value of an integral term under the path condition."""
+    """Enumerate, with the solver, the values an integral term can take on this path and fork
+    once per value.
+
+    The value set is over-approximated in two sound steps (a superfluous value only adds a
+    path whose condition is unsatisfiable): (1) bounds from the real relaxation of the full
+    path condition including the needed definitional constraints (non-linear, integers as
+    reals); (2) per candidate value, feasibility of the linear part of the path condition with
+    genuine integers (LIA) and of the full relaxed condition (NRA).  Mixed integer/non-linear
+    queries are never issued (z3 diverges on them)."""
+    from . import solve
     c = ctx()
     t = z3.simplify(s.t)
     if z3.is_rational_value(t):
         assert t.denominator_as_long() == 1
         return t.numerator_as_long()
-    sol = z3.Solver()
-    sol.set('timeout', 20000)
-    sol.add(*c.pc)
-    sol.add(*int_constraints(c, list(c.pc) + [t]))
-    vals = []
-    while True:
-        r = sol.check()
-        if r == z3.unsat:
+    pc = list(c.pc)
+    defs = solve.needed_defs(c.defs, pc + [t == 0])
+    full = pc + defs + [PI_BOUNDS]
+    lin = [f for f in pc if solve.abstract_nonlinear([f])[1] == 0]
+    ints = list(c.ints.values())
+    hi = None
+    for B in (1, 2, 3, 4, 5, 6, 8, 12, 16, 24, 32, 64):
+        if _quick(full + [t >= B]) == 'unsat':
+            hi = B
             break
-        if r != z3.sat:
-            raise Inconclusive('concretisation query returned unknown')
-        v = sol.model().eval(t, model_completion=True)
-        if not z3.is_rational_value(v) or v.denominator_as_long() != 1:
-            raise Inconclusive(f'concretisation: non-integral model value {v}')
-        v = v.numerator_as_long()
+    if hi is None:
+        raise Inconclusive(f'unbounded concretisation of {str(t)[:80]} (no upper bound <= 64 provable)')
+    lo = None
+    for B in (0, 1, 2, 3, 4, 6, 8, 16, 32, 64):
+        if _quick(full + [t <= -B - 1]) == 'unsat':
+            lo = -B
+            break
+    if lo is None:
+        raise Inconclusive(f'unbounded concretisation of {str(t)[:80]} (no lower bound >= -64 provable)')
+    vals = []
+    win = int_windows(lin, ints)
+    for v in range(lo, hi):
+        if _quick(full + [t == v]) == 'unsat':
+            continue
+        if _quick(intify(lin + win + [t == v], ints), 3000) == 'unsat':
+            continue
         vals.append(v)
-        sol.add(t != v)
-        if len(vals) > cap:
-            raise Inconclusive(f'unbounded concretisation of {str(t)[:80]} (> {cap} values)')
+    if len(vals) > cap:
+        raise Inconclusive(f'concretisation of {str(t)[:80]}: more than {cap} values')
     if not vals:
         raise PathAbort()
-    for v in sorted(vals):
+    for v in vals:
         if decide(t == v):
             return v
     raise PathAbort()
@@ -962,11 +999,15 @@ class SymArray(np.ndarray):
             return out.view(SymArray)
         if method == '__call__' and n in ('bitwise_and', 'bitwise_or', 'bitwise_xor',
                                           'logical_and', 'logical_or', 'logical_xor') and not kw:
-            op = {'and': lambda p, q: p & q, 'or': lambda p, q: p | q, 'xor': lambda p, q: p ^ q}[n.split('_')[1]]
+            import operator as _op
+            pyop = {'and': _op.and_, 'or': _op.or_, 'xor': _op.xor}[n.split('_')[1]]
             a, b = np.broadcast_arrays(*[np.asarray(i, dtype=object) for i in ins])
             out = np.empty(a.shape, dtype=object)
             for idx in np.ndindex(a.shape):
-                out[idx] = op(_asb(a[idx]), _asb(b[idx]))
+                x, y = a[idx], b[idx]
+                if n.startswith('logical'):
+                    x, y = _asb(x), _asb(y)
+                out[idx] = pyop(x, y)
             return out.view(SymArray)
         r = getattr(ufunc, method)(*ins, **{k: (tuple(np.asarray(o).view(np.ndarray) for o in v) if k == 'out' else v)
                                             for k, v in kw.items()})
